@@ -73,7 +73,8 @@ static void shape(const struct cstl_bintree_node * n, const struct cstl_bintree_
 
 static void dump(void)
 {
-    printf(" | %zu |", cstl_map_size(&map));
+    /* size field, then the number of calls of the user comparison made by this operation */
+    printf(" | %zu | %d |", cstl_map_size(&map), cmpcalls);
     malformed = 0;
     shape(map.t.t.root, NULL, 0);
     if (malformed) printf(" MALFORMED");
@@ -100,6 +101,7 @@ static void run_case(const struct h_case * c)
         if (!started) { cstl_map_init(&map, kcmp, NULL); started = 1; }
         if (a < 0 || a >= MAXK || b < 0 || b >= MAXV) { printf("precond\n"); return; }
         ha_active = 1;
+        cmpcalls = 0;
         if (h_weq(l, 0, "insert")) {
             rc = cstl_map_insert(&map, kptr(a), vptr(b), &it);
             ha_active = 0;
